@@ -13,7 +13,8 @@ RULE = ("A case is a V3 history of up to 10 events over {refresh, apply, LAN.sen
         "authentication lifetime, clock jump across a configured max connection lifetime (None/30 s/1 h), idle time, "
         "cancellation at a drawn instant}; part 'long_session' sends > 4096 (quick) / > 65,536 (thorough) data packets "
         "on one connection. Invariants I1-I4 are evaluated over the device-side wire log. Distinct = distinct history; "
-        "non-trivial = at least one fault, jump, bad credential or cancellation took effect.")
+        "non-trivial = at least one fault, jump, bad credential or cancellation took effect."
+        " Later additions: connection lifetimes of 1 s to 7 days, a host zone whose daylight-saving time changes during the history, a bystander pair, bursts of 3-100 unread reports followed by a re-authentication.")
 ASSUMPTIONS = [
     "no response delays here, so 'the latest handshake the client accepted' is the latest genuine reply the device "
     "sent on that connection (delays are C08's subject)",
